@@ -52,7 +52,7 @@ def cases(tier, seed):
                         for R in range(1, p + 1):
                             out.append({"key": f"trunc/{base}/graded/R={R}", "entry": "classical_qsvd", "m": m, "n": n, "vals": gv, "kU": kU, "kV": kV, "row": row, "R": R})
                     if kU == "hh" and row == 0 and r == p and comp == (1,) * p:
-                        for lay in ("F", "T", "view"):
+                        for lay in ("F", "T", "view", "ro"):
                             out.append({"key": f"full/{base}/layout={lay}", "entry": "classical_qsvd_full", "m": m, "n": n, "vals": vals, "kU": kU, "kV": kV, "row": row, "R": None, "lay": lay})
                     if kU == "hh" and row == 0 and r >= 1:
                         for e in (-50, 40):  # whole-matrix scalings ~1e-15, 1e12
